@@ -55,6 +55,10 @@ def dispatch_scenario(rng: random.Random, *, family=None, with_invalid=True, sto
             # the library's instance transformations are applied to the instance under test (they return NEW instances; results dropped)
             lines.append("xform")
             lines.append("snap")
+        if peeks and rng.random() < 0.06:
+            # the caller annotates the dispatcher's schedule (a dict of its own) the way the library's solvers annotate their results
+            lines.append("stamp")
+            lines.append("snap")
         if peeks and rng.random() < 0.12:
             # a look-ahead: some request (valid, or not) is tried on a deep copy of the dispatcher; the original goes on undisturbed
             pj, pp, pm = gen.gen_valid_request(rng, tr, "uniform")
@@ -79,6 +83,8 @@ def dispatch_scenario(rng: random.Random, *, family=None, with_invalid=True, sto
             n_invalid += 1
     lines.append("q makespan")
     lines.append("q num_scheduled")
+    if peeks and rng.random() < 0.5:
+        lines.append("stamp")
     if replay:
         lines.append("reset")
         lines.append("snap")
